@@ -166,7 +166,12 @@ class World:
         self.taplog.append(e)
 
     def flight_started(self, proc, f):
-        pass
+        if f == 0:
+            b = self.built[proc.conn["id"]]
+            for (after_f, label, secret) in b.get("keylog", []):
+                if after_f == -1:
+                    self.keyevents.append((self.sim.now, proc.conn["id"], label, b["keys"]["client_random"],
+                                           secret.hex()))
 
     def flight_done(self, proc, f):
         b = self.built[proc.conn["id"]]
@@ -667,11 +672,20 @@ def make_truth(spec, infos, taplog, frames_meta, drop, cut_lo, cut_hi, dups):
         else:
             t.update(info.get("truth", {}))
             fr = []
+            expected = []
+            dm = info.get("dmeta")
             for e in taplog:
                 if e["conn"] == cid:
                     fr.append({"i": e["i"], "d": e["d"], "dg": e["dg"], "ts": e["ts"], "dup": bool(e.get("dup")),
                                "kept": e["i"] in kept})
+                    if dm is not None and e["i"] in kept and dm[e["dg"]]["stream"]:
+                        for _ in range(1 + dups.get(e["i"], 0)):
+                            expected.append({"d": e["d"], "payload": dm[e["dg"]]["stream"], "ts": e["ts"], "dg": e["dg"],
+                                             "i": e["i"]})
             t["frames"] = fr
+            if dm is not None:
+                t["expected"] = expected
+                t["dmeta"] = dm
             t["keys"] = info.get("keys", {})
         truth["conns"].append(t)
     return truth
